@@ -77,10 +77,19 @@ def same_meta(a, b):
     return True, None
 
 
+CALL_LOG = []       # (qualified name of the real function, 'return' | 'raise:<Class>') for every call made through call()
+
+
 def call(fn, *a, **k):
+    name = '%s.%s' % (getattr(fn, '__module__', '?'), getattr(fn, '__qualname__', getattr(fn, '__name__', '?')))
+    if hasattr(fn, '__self__') and not isinstance(fn.__self__, type(sys)):
+        name = '%s.%s.%s' % (type(fn.__self__).__module__, type(fn.__self__).__qualname__, getattr(fn, '__name__', '?'))
     try:
-        return ('return', fn(*a, **k))
+        r = fn(*a, **k)
+        CALL_LOG.append((name, 'return'))
+        return ('return', r)
     except Exception as e:   # noqa
+        CALL_LOG.append((name, 'raise:' + type(e).__name__))
         return ('raise', e)
 
 
@@ -255,7 +264,7 @@ def main():
             return
         try:
             v, detail = REPLAYERS[target](tmp, rp['inputs'])
-            print(json.dumps({'violates': bool(v), 'detail': str(detail)[:2000]}))
+            print(json.dumps({'violates': bool(v), 'detail': str(detail)[:2000], 'calls': CALL_LOG[:40]}))
         except Exception as e:   # noqa
             print(json.dumps({'violates': None, 'detail': 'replayer error: %s\n%s' % (e, traceback.format_exc()[-1500:])}))
     finally:
